@@ -17,7 +17,25 @@
 (***************************************************************************)
 EXTENDS Integers, Sequences, FiniteSets, TLC
 
+(***************************************************************************)
+(* Calls, constructors and captures (added after the first defects were     *)
+(* found there):                                                            *)
+(*   [k:"call", f, args]   args: sequence of [l: label or "", v: tree]       *)
+(*   Hole                  the capture hole `_` (at most one per call)       *)
+(* A name starting with an upper-case letter is a constructor.  A            *)
+(* constructor whose arguments are ALL labelled is written with curly braces *)
+(* and only parses that way; `l: l` is written `l` there (punning).          *)
+(* Everything else takes parentheses; a constructor without arguments takes  *)
+(* nothing.  Labels are never dropped: a label decides which parameter an    *)
+(* argument (or the hole) stands for.                                       *)
+(***************************************************************************)
 V(x) == [k |-> "v", x |-> x]
+Hole == [k |-> "hole"]
+Call(f, args) == [k |-> "call", f |-> f, args |-> args]
+Arg(l, v) == [l |-> l, v |-> v]
+IsCons(f) == f \in {"Foo", "Bar"}
+AllLabelled(args) == Len(args) > 0 /\ \A i \in 1..Len(args) : args[i].l # ""
+Curly(t) == IsCons(t.f) /\ AllLabelled(t.args)
 Un(op, e) == [k |-> "un", op |-> op, e |-> e]
 Bin(op, l, r) == [k |-> "bin", op |-> op, l |-> l, r |-> r]
 Pipe(es) == [k |-> "pipe", es |-> es]
@@ -32,9 +50,9 @@ RightAssoc(op) == op \in {"||", "&&"}
 BinOps == {"||", "&&", "==", "!=", "<", "<=", ">", ">=", "+", "-", "*", "/", "%"}
 
 \* precedence of a tree when it stands as an operand
-PrecOf(e) == CASE e.k = "v" -> 9 [] e.k = "un" -> 8 [] e.k = "bin" -> Prec(e.op) [] e.k = "pipe" -> 0
+PrecOf(e) == CASE e.k = "un" -> 8 [] e.k = "bin" -> Prec(e.op) [] e.k = "pipe" -> 0 [] OTHER -> 9
 
-RECURSIVE Min(_), Full(_), MinSeq(_, _)
+RECURSIVE Min(_), Full(_), MinSeq(_, _), MinArgs(_, _, _), FullArgs(_, _, _)
 Paren(ts) == <<"(">> \o ts \o <<")">>
 \* operand of a binary operator: side is "l" or "r"
 Operand(e, op, side) ==
@@ -46,17 +64,39 @@ MinSeq(es, i) ==
     IF i > Len(es) THEN <<>>
     ELSE (IF i > 1 THEN <<"|>">> ELSE <<>>)
          \o (IF es[i].k = "pipe" THEN Paren(Min(es[i])) ELSE Min(es[i])) \o MinSeq(es, i + 1)
+\* arguments, comma separated; in curly form `l: l` is punned
+MinArgs(args, i, curly) ==
+    IF i > Len(args) THEN <<>>
+    ELSE (IF i > 1 THEN <<",">> ELSE <<>>)
+         \o (IF args[i].l = "" THEN Min(args[i].v)
+             ELSE IF curly /\ args[i].v = V(args[i].l) THEN <<args[i].l>>
+             ELSE <<args[i].l, ":">> \o Min(args[i].v))
+         \o MinArgs(args, i + 1, curly)
+FullArgs(args, i, curly) ==
+    IF i > Len(args) THEN <<>>
+    ELSE (IF i > 1 THEN <<",">> ELSE <<>>)
+         \o (IF args[i].l = "" THEN <<>> ELSE <<args[i].l, ":">>)
+         \o (IF args[i].v.k \in {"v", "hole", "call"} THEN Full(args[i].v) ELSE Paren(Full(args[i].v)))
+         \o FullArgs(args, i + 1, curly)
 Min(e) ==
     CASE e.k = "v"    -> <<e.x>>
+      [] e.k = "hole" -> <<"_">>
+      [] e.k = "call" -> IF Curly(e) THEN <<e.f, "{">> \o MinArgs(e.args, 1, TRUE) \o <<"}">>
+                         ELSE IF IsCons(e.f) /\ Len(e.args) = 0 THEN <<e.f>>
+                         ELSE <<e.f, "(">> \o MinArgs(e.args, 1, FALSE) \o <<")">>
       [] e.k = "un"   -> <<e.op>> \o (IF PrecOf(e.e) < 8 THEN Paren(Min(e.e)) ELSE Min(e.e))
       [] e.k = "bin"  -> Operand(e.l, e.op, "l") \o <<e.op>> \o Operand(e.r, e.op, "r")
       [] e.k = "pipe" -> MinSeq(e.es, 1)
 
 RECURSIVE FullSeq(_, _)
-FullOperand(e) == IF e.k = "v" THEN Full(e) ELSE Paren(Full(e))
+FullOperand(e) == IF e.k \in {"v", "call"} THEN Full(e) ELSE Paren(Full(e))
 FullSeq(es, i) == IF i > Len(es) THEN <<>> ELSE (IF i > 1 THEN <<"|>">> ELSE <<>>) \o FullOperand(es[i]) \o FullSeq(es, i + 1)
 Full(e) ==
     CASE e.k = "v"    -> <<e.x>>
+      [] e.k = "hole" -> <<"_">>
+      [] e.k = "call" -> IF Curly(e) THEN <<e.f, "{">> \o FullArgs(e.args, 1, TRUE) \o <<"}">>
+                         ELSE IF IsCons(e.f) /\ Len(e.args) = 0 THEN <<e.f>>
+                         ELSE <<e.f, "(">> \o FullArgs(e.args, 1, FALSE) \o <<")">>
       [] e.k = "un"   -> <<e.op>> \o FullOperand(e.e)
       [] e.k = "bin"  -> FullOperand(e.l) \o <<e.op>> \o FullOperand(e.r)
       [] e.k = "pipe" -> FullSeq(e.es, 1)
@@ -67,9 +107,24 @@ Full(e) ==
 (* unambiguous for this little parser (the harness prints "-").              *)
 (***************************************************************************)
 IsBin(t) == t \in BinOps
-RECURSIVE ParsePipe(_, _), ParseBin(_, _, _), ParseUnary(_, _), ParseLoop(_, _, _, _), ParsePipeRest(_, _, _)
+RECURSIVE ParsePipe(_, _), ParseBin(_, _, _), ParseUnary(_, _), ParseLoop(_, _, _, _), ParsePipeRest(_, _, _), ParseArgs(_, _, _, _)
+\* arguments up to the closing token; `x :` starts a labelled argument, a lone name before `,` / `}` in curly form is punned
+ParseArgs(ts, i, close, acc) ==
+    IF ts[i] = close THEN [args |-> acc, i |-> i + 1]
+    ELSE IF ts[i] = "," THEN ParseArgs(ts, i + 1, close, acc)
+    ELSE IF i + 1 <= Len(ts) /\ ts[i + 1] = ":" THEN
+        LET r == IF ts[i + 2] = "_" THEN [e |-> Hole, i |-> i + 3] ELSE ParsePipe(ts, i + 2)
+        IN  ParseArgs(ts, r.i, close, Append(acc, Arg(ts[i], r.e)))
+    ELSE IF close = "}" THEN ParseArgs(ts, i + 1, close, Append(acc, Arg(ts[i], V(ts[i]))))
+    ELSE LET r == IF ts[i] = "_" THEN [e |-> Hole, i |-> i + 1] ELSE ParsePipe(ts, i)
+         IN  ParseArgs(ts, r.i, close, Append(acc, Arg("", r.e)))
 ParseAtom(ts, i) ==
     IF ts[i] = "(" THEN LET r == ParsePipe(ts, i + 1) IN [e |-> r.e, i |-> r.i + 1]      \* skip ")"
+    ELSE IF i + 1 <= Len(ts) /\ ts[i + 1] = "(" /\ ts[i] \notin BinOps \cup {"!", "neg", "|>", "(", ","}
+         THEN LET r == ParseArgs(ts, i + 2, ")", <<>>) IN [e |-> Call(ts[i], r.args), i |-> r.i]
+    ELSE IF i + 1 <= Len(ts) /\ ts[i + 1] = "{"
+         THEN LET r == ParseArgs(ts, i + 2, "}", <<>>) IN [e |-> Call(ts[i], r.args), i |-> r.i]
+    ELSE IF IsCons(ts[i]) THEN [e |-> Call(ts[i], <<>>), i |-> i + 1]
     ELSE [e |-> V(ts[i]), i |-> i + 1]
 ParseUnary(ts, i) ==
     IF ts[i] \in {"!", "neg"} THEN LET r == ParseUnary(ts, i + 1) IN [e |-> Un(ts[i], r.e), i |-> r.i]
